@@ -143,7 +143,14 @@ func (language *Language) CompilerPasses() compiler.Passes {
 		&compiler.UndiscriminatedDisjunctionToAny{},
 		&compiler.DisjunctionToType{},
 		&compiler.RemoveIntersections{},
+		// members named after operators (`"<"`, `">"`) or names that only differ by case
+		&compiler.EnumMemberIdentifiers{Language: LanguageRef, Identifier: enumMemberIdentifier},
 	}
+}
+
+// enumMemberIdentifier gives the name of the constant declared for an enum member.
+func enumMemberIdentifier(member ast.EnumValue) string {
+	return tools.UpperSnakeCase(member.Name)
 }
 
 func (language *Language) NullableKinds() languages.NullableConfig {
